@@ -130,7 +130,7 @@ fn async_mc_answer_counter() {
     }
 }
 
-//@h id=async_send_faults_mc props=C06 tier=thorough build=dev-eu868-mc cost=2000 timeout=5400
+//@h id=async_send_faults_mc props=C06 tier=thorough build=dev-eu868-mc cost=3000 timeout=7200
 //@bounds `multicast` feature: as async_send_faults, with receive outcomes extended by multicast downlinks (which leave the unicast session untouched) and remote-setup commands that need no answer (accepted unicast downlinks), every received frame being one of these or a timeout (frames the MAC ignores: async_send_faults); responses requesting an answer uplink are covered by async_mc_answer_counter
 //@encodes async_device::Device::{send, rx_downlink, rx_listen, handle_mac_response}, From<mac::Response> for SendResponse
 //@assumes as async_send_faults; multicast::Response::is_transmit_request stubbed to false (the MAC contract of this harness produces no transmit request)
@@ -147,7 +147,7 @@ fn async_send_faults_mc() {
     send_mc_step(true);
 }
 
-//@h id=async_send_mc props=C06 tier=quick build=dev-eu868-mc cost=200 timeout=1800
+//@h id=async_send_mc props=C06 tier=thorough build=dev-eu868-mc cost=2500 timeout=7200
 //@bounds as async_send_faults_mc on a fault-free radio whose RX1 window always receives a frame (radio faults and window time-outs with the multicast feature: thorough tier; without it: async_send_faults)
 //@encodes async_device::Device::{send, rx_downlink, rx_listen, handle_mac_response}, From<mac::Response> for SendResponse
 //@assumes as async_send_faults_mc
